@@ -42,6 +42,8 @@ pub struct GenCfg {
     pub p_inherits: u32,
     pub unicode: bool,
     pub formatters: bool,
+    /// percent of variables that carry a formatter (when `formatters`)
+    pub p_formatter: u32,
     /// prefix every literal text with a unique tag
     pub tags: bool,
     pub max_pieces: usize,
@@ -77,6 +79,7 @@ impl Default for GenCfg {
             p_inherits: 30,
             unicode: true,
             formatters: false,
+            p_formatter: 25,
             tags: true,
             max_pieces: 8,
             max_comp_depth: 4,
@@ -144,6 +147,67 @@ impl<'t> Gen<'t> {
         }
     }
 
+    /// a variable that may carry a formatter (only when the configuration allows formatters)
+    pub fn var_piece_fmt(&mut self, name: &str) -> Piece {
+        let fmt = if self.cfg.formatters && (self.t.pick(100) as u32) < self.cfg.p_formatter {
+            Some(self.fmt_spec())
+        } else {
+            None
+        };
+        // one formatter family per variable name keeps the generated accessors type-correct
+        Piece::Var {
+            name: match &fmt {
+                Some(f) => format!("{}_{}", name, f.name),
+                None => name.to_string(),
+            },
+            ws: [self.ws(), self.ws()],
+            fmt,
+        }
+    }
+
+    pub fn fmt_spec(&mut self) -> FmtSpec {
+        const SPECS: &[(&str, &[(&str, &[&str])])] = &[
+            ("number", &[("grouping_strategy", &["auto", "never", "always", "min2"])]),
+            ("date", &[("date_length", &["full", "long", "medium", "short"])]),
+            ("time", &[("time_length", &["full", "long", "medium", "short"])]),
+            ("datetime", &[("date_length", &["full", "long", "medium", "short"]), ("time_length", &["full", "long", "medium", "short"])]),
+            ("list", &[("list_type", &["and", "or", "unit"]), ("list_style", &["wide", "short", "narrow"])]),
+            ("currency", &[("width", &["short", "narrow"]), ("currency_code", &["USD", "EUR", "JPY", "CHF"])]),
+        ];
+        let (name, opts) = SPECS[self.t.pick(SPECS.len())];
+        let mut args = vec![];
+        for (k, vals) in opts.iter() {
+            if self.t.coin() {
+                args.push((k.to_string(), vals[self.t.pick(vals.len())].to_string()));
+            }
+        }
+        let mut text = String::new();
+        text.push_str(&self.ws());
+        text.push_str(name);
+        if !args.is_empty() || self.t.chance(1, 4) {
+            text.push_str(&self.ws());
+            text.push('(');
+            for (i, (k, v)) in args.iter().enumerate() {
+                if i > 0 {
+                    text.push(';');
+                }
+                text.push_str(&self.ws());
+                text.push_str(k);
+                text.push_str(&self.ws());
+                text.push(':');
+                text.push_str(&self.ws());
+                text.push_str(v);
+                text.push_str(&self.ws());
+            }
+            text.push(')');
+        }
+        FmtSpec {
+            name: name.to_string(),
+            args,
+            text,
+        }
+    }
+
     /// pieces of an interpolated string; `vars`/`comps` = names it may use
     pub fn pieces(&mut self, tag: &str, depth: usize, rich: bool) -> Vec<Piece> {
         let n = if rich { self.t.range(1, self.cfg.max_pieces) } else { 1 };
@@ -160,7 +224,7 @@ impl<'t> Gen<'t> {
                 0 => out.push(Piece::Text(self.text(tag))),
                 1 => {
                     let name = *self.t.choose(VAR_POOL);
-                    out.push(self.var_piece(name));
+                    out.push(self.var_piece_fmt(name));
                 }
                 _ => {
                     let name = self.t.choose(COMP_POOL).to_string();
